@@ -38,7 +38,6 @@ var toleratedFailures = map[string]string{
 	"leveldb.recoverTable$2|iface:leveldb/iterator.Iterator.Error":        "Recover's scan counts corruption (the callback does) and goes on; other errors are returned",
 	// retried / converted
 	"(*leveldb.DB).rotateMem|(*leveldb.DB).newMem":                                 "errHasFrozenMem is retried after waiting for the flush (bounded); every other error is returned",
-	"(*leveldb.Transaction).Commit|(*leveldb.session).commit":                      "retried up to three times with a back-off; the last error is returned",
 	"leveldb.Open|(*leveldb.session).recover":                                      "a missing DB (os.IsNotExist, and not ErrorIfMissing / read-only) is created; every other error is returned",
 	"(*leveldb/journal.singleReader).Read|(*leveldb/journal.Reader).nextChunk":     "the internal errSkip marker is converted to io.ErrUnexpectedEOF; the error is latched in x.err and returned",
 	"(*leveldb/journal.singleReader).ReadByte|(*leveldb/journal.Reader).nextChunk": "as Read",
